@@ -97,6 +97,17 @@ CHECKS["C20"] = dict(
     design="3/C20",
 )
 
+CHECKS["C02"] = dict(
+    technique="concolic execution with symbolic labels: index/tag labels are str objects whose equality is a z3 decision (constant hash), so the real dict/oset bookkeeping forks on every label comparison and each scenario runs once per consistent aliasing pattern",
+    text="Bounded symbolic model checking of the bookkeeping: scenario programs of <= 4 public operations (add/pop/replace tensors, rename labels and tags at tensor and network level, "
+         "modify, copies and virtual views, select, partition, combination with | and &, pickling, dropping views + gc, contract_ind, isel, fuse_multibonds) over <= 3 tensors run with <= 6 "
+         "symbolic index labels and <= 3 symbolic tags; after every step, on every aliasing pattern, ind_map/tag_map equal a fresh scan, inner/outer equal the library's fresh constructor, "
+         "selection returns exactly the carriers, owner registries point to exactly the live holders, tn.check() passes, and combination neither merges distinct bonds nor renames outer labels.",
+    note="Trusted: z3, qv/sx.py, CPython dict semantics (equal hash => ==). Symbolic labels never alias concrete strings; tensor data are constants. Outside: histories > 4, structured subclasses, "
+         "labels processed as strings (site tags). One known finding: label repeated on ONE tensor created/removed by modify/reindex.",
+    design="3/C02",
+)
+
 NA = {}
 
 
